@@ -16,6 +16,8 @@ open Mistletoe.Html
 /-! ### Non-vacuity -/
 
 def L (s : String) : Str := s.toList
+/-- several string literals joined (the kernel evaluates short literals much faster than long ones) -/
+def LL (ss : List String) : Str := (ss.map String.toList).flatten
 
 /-- * a table with three columns `:--` (left), ` :-: ` (centre), `---:` (right), cells with characters to escape; a short
       body row, a long one written without outer pipes, one with an empty cell and no trailing pipe;
@@ -44,15 +46,35 @@ def sampleT : List T4 := [
 theorem sampleT_ok : T4.oks sampleT = true := by decide +kernel
 
 /-- what the writer produces -/
-def textT : Str :=
-  L "| a | b & 1 < 2 | d |\n|:--| :-: |---:|\n| 1 |\n1 | 2 | 3 | 4\n| | \"x\"\n\n> h1 | h2\n> --- | ---\n> |q|\n> \n>     quoted code\n\n- item\n\n  |k|\n  |-|\n\n      in item\n\n       deeper\n\n```\nx\n```\n\n    code <1>\n\n      more  \n  \n      \n    last\n\nafter\n"
+def textT : Str := LL [
+  "| a | b & 1 < 2 | d |\n|:--| :-: |---:|\n| 1 |\n1 | 2 | 3 | 4\n",
+  "| | \"x\"\n\n> h1 | h2\n> --- | ---\n> |q|\n> \n>     quoted code\n\n",
+  "- item\n\n  |k|\n  |-|\n\n      in item\n\n       deeper\n\n```\nx\n",
+  "```\n\n    code <1>\n\n      more  \n  \n      \n    last\n\nafter\n"]
 
 example : (writes4 sampleT).flatten = textT := by decide +kernel
 
 /-- the HTML written directly from the tree; `mistletoe.markdown` returns this string for the text above (checked with
     /repo: `mistletoe.markdown(textT) == htmlT`) -/
-def htmlT : Str :=
-  L "<table>\n<thead>\n<tr>\n<th align=\"left\">a</th>\n<th align=\"center\">b &amp; 1 &lt; 2</th>\n<th align=\"right\">d</th>\n</tr>\n</thead>\n<tbody>\n<tr>\n<td align=\"left\">1</td>\n<td align=\"center\"></td>\n<td align=\"right\"></td>\n</tr>\n<tr>\n<td align=\"left\">1</td>\n<td align=\"center\">2</td>\n<td align=\"right\">3</td>\n<td align=\"left\">4</td>\n</tr>\n<tr>\n<td align=\"left\"></td>\n<td align=\"center\">\"x\"</td>\n<td align=\"right\"></td>\n</tr>\n</tbody>\n</table>\n<blockquote>\n<table>\n<thead>\n<tr>\n<th align=\"left\">h1</th>\n<th align=\"left\">h2</th>\n</tr>\n</thead>\n<tbody>\n<tr>\n<td align=\"left\">q</td>\n<td align=\"left\"></td>\n</tr>\n</tbody>\n</table>\n<pre><code>quoted code\n</code></pre>\n</blockquote>\n<ul>\n<li>\n<p>item</p>\n<table>\n<thead>\n<tr>\n<th align=\"left\">k</th>\n</tr>\n</thead>\n<tbody>\n</tbody>\n</table>\n<pre><code>in item\n\n deeper\n</code></pre>\n</li>\n</ul>\n<pre><code>x\n</code></pre>\n<pre><code>code &lt;1&gt;\n\n  more  \n\n  \nlast\n</code></pre>\n<p>after</p>\n"
+def htmlT : Str := LL [
+  "<table>\n<thead>\n<tr>\n<th align=\"left\">a</th>\n",
+  "<th align=\"center\">b &amp; 1 &lt; 2</th>\n",
+  "<th align=\"right\">d</th>\n</tr>\n</thead>\n<tbody>\n<tr>\n",
+  "<td align=\"left\">1</td>\n<td align=\"center\"></td>\n",
+  "<td align=\"right\"></td>\n</tr>\n<tr>\n<td align=\"left\">1</td>\n",
+  "<td align=\"center\">2</td>\n<td align=\"right\">3</td>\n",
+  "<td align=\"left\">4</td>\n</tr>\n<tr>\n<td align=\"left\"></td>\n",
+  "<td align=\"center\">\"x\"</td>\n<td align=\"right\"></td>\n</tr>\n",
+  "</tbody>\n</table>\n<blockquote>\n<table>\n<thead>\n<tr>\n",
+  "<th align=\"left\">h1</th>\n<th align=\"left\">h2</th>\n</tr>\n",
+  "</thead>\n<tbody>\n<tr>\n<td align=\"left\">q</td>\n",
+  "<td align=\"left\"></td>\n</tr>\n</tbody>\n</table>\n",
+  "<pre><code>quoted code\n</code></pre>\n</blockquote>\n<ul>\n",
+  "<li>\n<p>item</p>\n<table>\n<thead>\n<tr>\n",
+  "<th align=\"left\">k</th>\n</tr>\n</thead>\n<tbody>\n</tbody>\n",
+  "</table>\n<pre><code>in item\n\n deeper\n</code></pre>\n</li>\n",
+  "</ul>\n<pre><code>x\n</code></pre>\n<pre><code>code &lt;1&gt;\n\n",
+  "  more  \n\n  \nlast\n</code></pre>\n<p>after</p>\n"]
 
 example : htmlOf4 {} sampleT = htmlT := by decide +kernel
 example : needs4 sampleT = 285 := by decide +kernel
